@@ -29,6 +29,9 @@ type Plan struct {
 	// After is the number of elements a failing lookup delivers before it
 	// fails (0: none).
 	After int
+	// From, when > 0, makes every driver call from that position on fail (a
+	// driver that has gone away), not only the K-th.
+	From int
 	// Late makes a failing lookup do some work between closing its channel and
 	// returning the error (a driver that releases resources, logs, ...): the
 	// consumer sees the channel closed well before the call returns.
@@ -88,6 +91,12 @@ func (s *Store) enter(method, graph string) bool {
 	s.calls = append(s.calls, c)
 	if s.plan.K > 0 && s.n == s.plan.K {
 		s.fired = &c
+		return true
+	}
+	if s.plan.From > 0 && s.n >= s.plan.From {
+		if s.fired == nil {
+			s.fired = &c
+		}
 		return true
 	}
 	return false
